@@ -18,9 +18,11 @@ import fw
 sys.path.insert(0, os.path.join(fw.VERIF, "translators"))
 import members_extract  # noqa: E402
 import factory_extract  # noqa: E402
+import py2lean_add  # noqa: E402  (C10's translator: the shape of __add the placement block of add() has in the tree)
 from props import c10  # noqa: E402  (shared helpers: classes(), quiet, serialisation, snapshots)
 
 LEAN_PROPS = ["NmlVerif.Props.C09", "NmlVerif.Props.C09Gen", "NmlVerif.Props.C09Tables"]
+LEAN_EXTRA = ["NmlVerif.Gen.AddImpl"]     # imported by the driver only (shape of __add): must be rebuilt when it changes
 LEVEL = "proof"
 RULE = ("streams: (factory) EVERY one of the 199 component types x keyword sets {valid (from MemberSpec types and the "
         "validate_*_patterns_/enumerations in nml.py), valid+optional, one facet violation, one BOUNDARY spelling of a "
@@ -39,7 +41,7 @@ TRUST = [
     "translators/members_extract.py (shared with C10; its table is compared with the real _get_members() of every class by C10's members stream and again here through _check_arg_list outcomes)",
     "translators/factory_extract.py: statement-level translation of component_factory/_check_arg_list/add/utils wrapper/switch functions, constructor table, ENABLED writers/readers, helper call sites; validated by the correspondence streams (every generated definition is the one the driver runs), not verified",
     "validate() (vs schema: C02/C03), Python's int()/float() and Cell.setup_nml_cell's effect are parameters of the model, measured on the real library / interpreter per case; the oracle additionally asks libxml2 (bundled XSD) about facet/boundary values",
-    "the placement block of add() is property C10's model (Add.addCore); the translator only checks that it does not touch the gate, the keywords or return early",
+    "the placement block of add() is property C10's model in the shape its translator reads off the tree (Add.addCoreX with Gen.AddImpl.dupTest / warnFmt / bookKeeping; Props/C10Gen.lean proves the translated add/__add equal to it); factory_extract only checks that the block does not touch the gate, the keywords or return early",
 ]
 ASSUMPTIONS = [
     "keyword VALUES are of the Python kind the member expects (str/number/component/list of components); a value of another Python type (e.g. a list for an integer attribute) makes the constructor raise TypeError, which is neither outcome named by the property: the statement quantifies over 'valid, facet-violating, misspelt' keyword sets, wrong-typed values are not among them (decided in notes/C09.md, second pass)",
@@ -1037,6 +1039,7 @@ def run_helpers(ctx, names=None, stream="helpers"):
     missing = sorted({s[1] for s in sites} - {HELPERS[n]["method"] for n in HELPERS})
     for m in missing:
         ctx.disagree(stream, {"method": m}, "no invocation in the harness", "call site in the regenerated table")
+    ctx.extra["add_placement_shape"] = ms.get("place")
     ctx.extra["helper_sites"] = {"sites": len(sites), "methods": sorted({s[1] for s in sites}), "exercised_methods": sorted(covered),
                                  "unvalidated_by_design": sorted({"%s.%s(%s)" % (s[0], s[1], s[3]) for s in sites if s[4] == "lit:False"})}
 
@@ -1145,6 +1148,10 @@ def corpus_sessions(ctx):
 def regenerate(ctx):
     gaps, summ = members_extract.regenerate(fw.REPO, fw.LEAN)
     ctx.extra["member_table"] = summ
+    # the placement block of add() is C10's: its translator tells which form `__add` has in this tree
+    gaps_add = ["add/__add (py2lean_add): " + g for g in
+                py2lean_add.regenerate(fw.REPO, os.path.join(fw.LEAN, "NmlVerif", "Gen", "AddImpl.lean"))]
+    gaps += gaps_add
     gaps2, summ2, sites = factory_extract.regenerate(fw.REPO, fw.LEAN)
     ctx.extra["factory_translation"] = summ2
     known = {h["method"] for h in HELPERS.values()}
